@@ -202,7 +202,8 @@ def Ty.mentions (ps : List String) : Ty → Bool
   | .paren t => t.mentions ps
   | .never => false
   | .dynT g segs _ => headIn ps g segs || Seg.mentionsL ps segs
-  | .macro _ => false
+  -- the arguments of a macro in type position are not parsed: any identifier among its tokens counts
+  | .macro toks => toks.any fun t => ps.contains (unraw t)
   | .prefixed _ t => t.mentions ps
 def Ty.mentionsO (ps : List String) : Option Ty → Bool
   | none => false
